@@ -1170,7 +1170,26 @@ func scnPause(g *Gen, budget int, arg string) {
 // ---------------------------------------------------------------------------------------------
 // attesters: walks over a small attester universe from every (count, threshold) start.
 
+// thresholdAboveCount: only a genesis can put the threshold above the number of attesters (the handlers refuse to).  Then no
+// attestation can be valid: not one by every enabled attester, not one filled up with a stranger.
+func (g *Gen) thresholdAboveCount() {
+	g.config()
+	sp := g.standardGenesis(2, 3)
+	g.emit(Op{Kind: "genesis-init", KV: sp.kv()})
+	g.dump()
+	for _, signers := range [][]int{{0, 1}, {0, 1, 2}, {0}, {0, 1, 0}} {
+		m := buildMessage(0, 1, 4, g.freshNonce(1), g.rand32(), g.otherRecipient(), make([]byte, 32), g.randBytes(4))
+		g.tx("ReceiveMessage", g.opReceive(g.acct[1], m, attOpts{signers: g.sortedKeys(signers)}))
+	}
+	am := g.role("am")
+	g.tx("UpdateSignatureThreshold", newKV().set("from", hs(am)).set("amount", "3"))
+	g.tx("UpdateSignatureThreshold", newKV().set("from", hs(am)).set("amount", "2"))
+	g.tx("DisableAttester", newKV().set("from", hs(am)).set("attester", hs(g.pubHex[0])))
+	g.q("SignatureThreshold")
+}
+
 func scnAttesters(g *Gen, budget int, arg string) {
+	g.thresholdAboveCount()
 	for g.nOps < budget {
 		n := 1 + g.pick(4)
 		t := 1 + g.pick(n)
